@@ -34,6 +34,8 @@ pub struct SinkState {
     pub counts: FaultCounts,
     pub failed_once: bool,
     pub record_data: bool,
+    /// commit-on-flush destinations: the image as of the last successful flush
+    pub committed: Vec<u8>,
 }
 
 /// In-memory `Write + Seek` destination that logs every operation and injects F1/F2/F5.
@@ -54,13 +56,14 @@ impl SimSink {
             counts: FaultCounts::default(),
             failed_once: false,
             record_data,
+            committed: Vec::new(),
         })))
     }
 
     pub fn snapshot(&self) -> (Vec<u8>, Vec<Op>, FaultCounts, (usize, usize, usize)) {
         let st = self.0.lock().unwrap_or_else(|e| e.into_inner());
         (
-            st.image.clone(),
+            if st.faults.commit_on_flush { st.committed.clone() } else { st.image.clone() },
             st.ops.clone(),
             st.counts.clone(),
             (st.n_write, st.n_seek, st.n_flush),
@@ -144,6 +147,9 @@ impl Write for SimSink {
             return Err(injected());
         }
         st.ops.push(Op::Flush);
+        if st.faults.commit_on_flush {
+            st.committed = st.image.clone();
+        }
         Ok(())
     }
 }
